@@ -219,7 +219,7 @@ func runC12(r *Run) {
 	// bracket nests: the list-or-map alternative re-parses its first element
 	depths := []int{4, 8, 12, 16, 18, 20}
 	if r.Tier == "thorough" {
-		depths = append(depths, 22, 24, 100, 1000, 5000)
+		depths = append(depths, 22, 24, 60, 100, 200, 1000, 5000)
 	}
 	// every nest first in a CHILD process with a time limit: a front end that is exponential in the nesting depth would
 	// otherwise stall this process for ever
@@ -251,6 +251,9 @@ func runC12(r *Run) {
 		c12One(r, src, good, "map", budget)
 	}
 	for _, d := range depths {
+		if d > 200 { // the chains below are probed up to depth 200; deeper only the bracket / parenthesis nests
+			continue
+		}
 		nest("x" + strings.Repeat(".abs()", d*2))
 		nest("s" + strings.Repeat(".len().string()", d))
 		nest(strings.Repeat("abs(", d*2) + "x" + strings.Repeat(")", d*2))
@@ -258,6 +261,8 @@ func runC12(r *Run) {
 		nest("m" + strings.Repeat("[\"k\"].string().len()", 1) + strings.Repeat(" + x.abs().abs()", d))
 		nest(strings.Repeat("!", d*3) + "(x > 1)")
 		nest(strings.Repeat("(x > 0 ? ", d) + "1" + strings.Repeat(" : 2)", d))
+	}
+	for _, d := range depths {
 		c12One(r, strings.Repeat("[", d)+"1:1"+strings.Repeat("]:1", d-1)+"]", good, "map", budget)
 		c12One(r, strings.Repeat("[", d)+"1"+strings.Repeat("]", d), good, "map", budget)
 		c12One(r, strings.Repeat("(", d*10)+"1"+strings.Repeat(")", d*10), good, "map", budget)
